@@ -99,6 +99,8 @@ func (d *SiteDef) Build() Site {
 			p.Script = []Resp{{Status: 200, Header: map[string]string{"Content-Type": "application/xml"}, Body: ""}}
 		case "cut": // headers arrive, the connection breaks in the middle of the body
 			p.Script = []Resp{{Status: 200, Header: map[string]string{"Content-Type": "image/png"}, Body: pngMagic + strings.Repeat("\x00", 4096), CutAt: 100}}
+		case "bigbin-chunked", "bigbin": // 9 KiB of image data (past the 2 KiB that are sniffed), without / with a Content-Length
+			p.Script = []Resp{{Status: 200, Header: map[string]string{"Content-Type": "image/png"}, Body: pngMagic + strings.Repeat("\x00", 9000), NoLength: n.Kind == "bigbin-chunked"}}
 		case "stall": // headers and 100 bytes arrive, then silence: the read times out, and so does every further read
 			p.Script = []Resp{{Status: 200, Header: map[string]string{"Content-Type": "image/png"}, Body: pngMagic + strings.Repeat("\x00", 4096), CutAt: 100, CutErr: "timeout"}}
 		}
@@ -244,7 +246,7 @@ func (d *SiteDef) Reference(seed string, opt Options) *Expect {
 				attempts++
 				code := 404
 				switch kind {
-				case "html", "bin", "m3u8", "cut", "stall", "badpdf", "emptyxml", "bigtext":
+				case "html", "bin", "m3u8", "cut", "stall", "badpdf", "emptyxml", "bigtext", "bigbin", "bigbin-chunked":
 					code = 200
 				case "wall":
 					code = 200
